@@ -1627,10 +1627,6 @@ impl Fsm {
                 self.tracer.enter_method("externalQueue.dequeue");
                 loop {
                     let externalEventTmp = externalQueue_receiver.lock().unwrap().recv().unwrap();
-                    if externalEventTmp.name.starts_with(EVENT_DONE_INVOKE_PREFIX) {
-                        externalEvent = externalEventTmp;
-                        break;
-                    }
                     if let Some(invoke_id) = &externalEventTmp.invoke_id {
                         if caller_invoke_id.ne(invoke_id) {
                             // W3C says:
@@ -1641,8 +1637,21 @@ impl Fsm {
                             // Events of other sessions (e.g. a session invoked by somebody else) are delivered.
                             let is_cancelled = {
                                 let global = get_global!(datamodel);
-                                !global.child_sessions.contains_key(invoke_id)
-                                    && global.cancelled_invokes.contains(invoke_id)
+                                match global.child_sessions.get(invoke_id) {
+                                    None => global.cancelled_invokes.contains(invoke_id),
+                                    // The invoke id is in use again (the state was re-entered):
+                                    // events of the former, cancelled session are still ignored.
+                                    Some(child) => match &externalEventTmp.origin {
+                                        Some(origin) => {
+                                            origin.starts_with(SCXML_TARGET_SESSION_ID_PREFIX)
+                                                && !origin.eq(&format!(
+                                                    "{}{}",
+                                                    SCXML_TARGET_SESSION_ID_PREFIX, child.session_id
+                                                ))
+                                        }
+                                        None => false,
+                                    },
+                                }
                             };
                             if !is_cancelled {
                                 externalEvent = externalEventTmp;
